@@ -22,7 +22,8 @@ EXPLANATION = (
     "_create_payload just inserted at the bisect position, never a detached "
     "default; (R3) the only other tree writes on the destination are the "
     "paired deletions after the yield, at bisect_left of the same "
-    "coordinate, under a test of the offered payload against emptiness, "
+    "coordinate, under a removal condition whose disjunctive normal form is "
+    "{still-empty sub-fiber} or {leaf == default and nothing else}, "
     "with the rank pop under the owner guard and the position counter "
     "decremented there and incremented once per iteration; (R4) the source "
     "is never written; (R5) the destination's active range and the result's "
